@@ -34,12 +34,13 @@ Clauses(r) ==
     <<"Admissible", /\ AdmissiblePar(r.fam, r.p1) /\ AdmissiblePar(r.fam, r.p2)
                     /\ AdmissiblePar(r.fam, r.p3)
                     /\ r.ll1 > NegInf /\ r.ll2 > NegInf /\ r.ll3 > NegInf>>,
-    \* history: bitsA = the exact bit patterns (22-bit limbs) of all fitted parameters in the first pass,
-    \* bitsB = the same fits repeated in the same process in another seeded order of the cases,
-    \* bits1A / bits1C = the first fit, clean / after a fit of ANOTHER instance of the same family in which
-    \* parameter kfix is fixed.  A fit is a function of (instance, data): identical, bit for bit.
-    <<"CaseOrderIndependent", r.bitsA = r.bitsB>>,
-    <<"FixedFitDoesNotLeak", r.bits1A = r.bits1C>>,
+    \* history: exact bit patterns (22-bit limbs) of fitted parameters.  bitsA = all fits of the first pass,
+    \* bitsB = the same fits repeated in the same process in another seeded order of the cases; first fit only:
+    \* bits10 = as the only fit of a fresh process, bits1A = first pass, bits1C / bits1H = after a fit of ANOTHER
+    \* instance of the same family in which parameter kfix is fixed (same process / fresh process).
+    \* A fit is a function of (instance, data): identical, bit for bit.
+    <<"CaseOrderIndependent", r.bitsA = r.bitsB /\ r.bits10 = r.bits1A>>,
+    <<"FixedFitDoesNotLeak", r.bits1A = r.bits1C /\ r.bits10 = r.bits1H>>,
     <<"ScaleEquivariant", Sc(r) /\ Identifiable(r.fam, r.n) => EquivariantFit(r.fam, r.num, r.den, r.n, r.p1, r.p2, r.ll1, r.ll2)>>
   >>
 
